@@ -328,6 +328,10 @@ def run(ctx: Ctx) -> None:
         else:
             rep.bad("C11.R0", "dds", f"some function raises DDSException with code {code}", "dds/", [f"no `raise DDSException(..., DDSErrorCode.{code})` anywhere in the package: such evaluations cannot be rejected with this code"],
                     code, what=f"no rejection with code {code} exists")
+    if not raises_with_code(top, "OVERLAPPING_PATH"):
+        rep.bad("C11.R0", top.qname, "the top-level evaluation function rejects overlapping paths (raise with OVERLAPPING_PATH guarded by the overlap detector)", top.loc(),
+                [f"no `raise DDSException(.., DDSErrorCode.OVERLAPPING_PATH)` in {top.qname}: a path that is a strict prefix of another is accepted, user functions run and the "
+                 "commit fails half way"], "OVERLAPPING_PATH-top", what="no rejection of overlapping paths before the evaluation runs")
     if any(o.rule == "C11.R0" and o.verdict == "violated" for o in rep.obligations):
         return
     # ---- R1 -------------------------------------------------------------------------------
@@ -371,6 +375,13 @@ def run(ctx: Ctx) -> None:
     rep.rule("C11.R8", "as C03.R3(i): no process-wide cache whose entries are returned as analysis results (resolved functions, interactions) has a writer: "
                        "both passes must analyse the functions that python will run, not those of an earlier evaluation")
     global_cache_rule(ctx, "C11.R8")
+
+    # ---- R10: the detectors look at every element ----
+    from .common import loops_can_iterate
+    rep.rule("C11.R10", "every loop of the path utilities and of the two analysis passes can reach its next element (no unconditional return / break at the end of a loop body)")
+    n10 = loops_can_iterate(ctx, "C11.R10", ("dds.structures_utils", "dds._introspect_indirect", "dds.introspect"),
+                            "overlap detection: with a sibling that sorts before the overlapping pair (`/a` next to `/m`, `/m/x`) only the first group is searched and the overlap is accepted")
+    rep.floor("C11.R10", n10, 10)
 
     # ---- R9: both passes resolve every name of the module ----
     from .c01 import dismiss_rule
